@@ -721,6 +721,7 @@ class Client:
           and the values are values from the cache. The dict may contain all,
           some or none of the given keys.
         """
+        keys = list(keys)
         if not keys:
             return {}
 
@@ -783,6 +784,7 @@ class Client:
           the values are tuples of (value, cas) from the cache. The dict may
           contain all, some or none of the given keys.
         """
+        keys = list(keys)
         if not keys:
             return {}
 
